@@ -163,7 +163,8 @@ def r2(ctx):
     okm = False
     got = "?"
     if tail.get("k") == "tup" and len(tail["xs"]) == 2:
-        N = e1.Norm(c)
+        from .. import arms as _arms
+        N = e1.Norm(c, _arms.fn_level_env(c, fn, upto=stmts[-1], hook=hook))     # named means (`let mean_loss = ..`) are expanded
         N.reduce_hook = hook
         try:
             vals = [N.norm(x) for x in tail["xs"]]
